@@ -116,24 +116,60 @@ def strip_comments(src: str) -> str:
     return ''.join(out)
 
 
-def write_coqproject():
+def _dir_deps(d):
+    """directories (under theories/) that files of theories/<d> import from"""
+    deps = set()
+    for f in glob.glob(os.path.join(COQ, 'theories', d, '*.v')):
+        try:
+            src = open(f, encoding='utf-8').read()
+        except OSError:
+            continue
+        for m in re.finditer(r'(?:From\s+Verif\.([A-Za-z0-9_]+)|Require\s+(?:Import\s+|Export\s+)?Verif\.([A-Za-z0-9_]+))', src):
+            deps.add(m.group(1) or m.group(2))
+    deps.discard(d)
+    return deps
+
+
+def _closure(dirs):
+    todo, seen = list(dirs), set()
+    while todo:
+        d = todo.pop()
+        if d in seen or not os.path.isdir(os.path.join(COQ, 'theories', d)):
+            continue
+        seen.add(d)
+        todo.extend(_dir_deps(d))
+    return seen
+
+
+def write_coqproject(dirs=None):
+    """Write a project file + Makefile restricted to the given theory directories and
+    what they import (so a broken file of another property cannot break this build).
+    Returns the Makefile name."""
+    if dirs is None:
+        dirs = {f.split('/')[1] for f in coq_files()}
+    dirs = _closure(set(dirs) | {'Common'})
+    files = [f for f in coq_files() if f.split('/')[1] in dirs]
+    key = hashlib.sha256(' '.join(sorted(dirs)).encode()).hexdigest()[:12]
     lines = ['-Q theories Verif',
              '-arg -w -arg -notation-overridden,-deprecated-hint-without-locality,-deprecated-instance-without-locality']
-    lines += coq_files()
+    lines += files
     txt = '\n'.join(lines) + '\n'
-    p = os.path.join(COQ, '_CoqProject')
-    old = open(p).read() if os.path.exists(p) else None
-    if old != txt:
-        open(p, 'w').write(txt)
-    rc, out = sh(['coq_makefile', '-f', '_CoqProject', '-o', 'Makefile'], cwd=COQ, timeout=120)
-    if rc != 0:
-        raise RuntimeError('coq_makefile failed:\n' + out)
+    proj = os.path.join(COQ, f'_CoqProject.{key}')
+    mk = f'Makefile.{key}'
+    old = open(proj).read() if os.path.exists(proj) else None
+    if old != txt or not os.path.exists(os.path.join(COQ, mk)):
+        open(proj, 'w').write(txt)
+        rc, out = sh(['coq_makefile', '-f', os.path.basename(proj), '-o', mk], cwd=COQ, timeout=120)
+        if rc != 0:
+            raise RuntimeError('coq_makefile failed:\n' + out)
+    return mk
 
 
 def coq_make(targets, timeout=1500, clean=False):
     """Build the given .vo targets (paths relative to coq/).  Full .vo builds only."""
     with Lock('coq'):
-        write_coqproject()
+        dirs = {t.split('/')[1] for t in targets if t.startswith('theories/')}
+        mk = write_coqproject(dirs)
         if clean:
             # thorough: rebuild the whole directory of every target from scratch
             for d in {os.path.dirname(t) for t in targets}:
@@ -142,7 +178,7 @@ def coq_make(targets, timeout=1500, clean=False):
                         os.remove(f)
         t0 = time.time()
         try:
-            rc, out = sh(['make', '-j16'] + targets, cwd=COQ, timeout=timeout)
+            rc, out = sh(['make', '-f', mk, '-j16'] + targets, cwd=COQ, timeout=timeout)
         except subprocess.TimeoutExpired:
             return False, 'TIMEOUT', time.time() - t0
         return rc == 0, out, time.time() - t0
